@@ -2,6 +2,9 @@ package pmdiff
 
 import (
 	"testing"
+	"time"
+
+	"github.com/creachadair/mds/mdiff"
 
 	"pgregory.net/rapid"
 	"verif/vk"
@@ -24,6 +27,20 @@ var genQuoted = rapid.Custom(func(t *rapid.T) string {
 	return q + rapid.StringMatching(`[a-z \\tnux0-9é]{0,6}`).Draw(t, "inner") + q
 })
 
+// timeLayouts: layouts a caller may put into FileInfo.TimeFormat (any layout
+// time.Format accepts; no newline).  Some contain a tab or blanks, one is the
+// default layout spelled out, some render to text the default layout can read.
+var timeLayouts = []string{time.RFC3339, time.RFC3339Nano, time.Kitchen, "2006-01-02", time.UnixDate, time.ANSIC, time.RFC1123Z, time.RFC822, time.StampMicro, time.DateTime,
+	mdiff.TimeFormat, "2006-01-02 15:04:05 -0700", "2006-01-02 15:04:05.000000 -0700", "2006-01-02T15:04:05", "15:04", "Jan _2", "02/01/06 15h04", "2006-01-02\t15:04:05", "\t2006", "2006\t",
+	" ", "x", "at 3PM", "-0700", "MST", "2006-01-02 15:04:05.999999 -0700 MST", "2006-01-02 15:04:05.999999999 -0700", "--- 2006", "+++ b\t2006", "@@ -1 +1 @@", "1136239445"}
+
+var genTFmt = rapid.Custom(func(t *rapid.T) string {
+	if rapid.IntRange(0, 2).Draw(t, "customLayout") != 0 {
+		return ""
+	}
+	return rapid.SampledFrom(timeLayouts).Draw(t, "layout")
+})
+
 var genFI = rapid.Custom(func(t *rapid.T) *FI {
 	if rapid.IntRange(0, 3).Draw(t, "nofi") == 0 {
 		return nil
@@ -43,7 +60,39 @@ var genFI = rapid.Custom(func(t *rapid.T) *FI {
 	f := &FI{Left: name.Draw(t, "lname"), Right: name.Draw(t, "rname")}
 	f.LSec, f.LMicro, f.LZone = tm("l")
 	f.RSec, f.RMicro, f.RZone = tm("r")
+	f.TFmt = genTFmt.Draw(t, "tfmt")
 	return f
+})
+
+// gitHeadNames: how git and its users spell the two sides of a file section.
+var gitHeadNames = []string{"/dev/null", "/dev/null", "/dev/null", "a/dev/null", "b/dev/null", "dev/null", "/dev/null ", " /dev/null", "/dev/nul", "/dev/null/x", "/dev/zero", "//dev/null", "/DEV/NULL", "a//dev/null",
+	"NUL", "nul", "null", "/", "-", "a", "b", "a/", "b/", "a/x", "b/x", "x", "a/a", "b/b", "a/b/c", "b/a/x", "a/my file", "b/my file", "a/ b", "\"a/x y\"", "\"b/t\\tq\"", "a/é", "c/x", "i/x", "w/x", "./x", "../x", "a/x.orig"}
+
+// genGitHead draws the header of one file section: in half of the sections
+// the usual a/<name> b/<name>, otherwise names from gitHeadNames on either
+// side or on both; now and then a tab after a name, or timestamps.
+var genGitHead = rapid.Custom(func(t *rapid.T) GitHead {
+	h := GitHead{FI: FI{LSec: -1, RSec: -1}}
+	side := rapid.IntRange(0, 5).Draw(t, "headSides") // 0-2: none
+	if side == 3 || side == 5 {
+		h.FI.Left = rapid.SampledFrom(gitHeadNames).Draw(t, "headL")
+	}
+	if side == 4 || side == 5 {
+		h.FI.Right = rapid.SampledFrom(gitHeadNames).Draw(t, "headR")
+	}
+	if rapid.IntRange(0, 3).Draw(t, "headTab?") == 0 {
+		h.Tab = rapid.IntRange(1, 3).Draw(t, "headTab")
+	}
+	if rapid.IntRange(0, 5).Draw(t, "headTime?") == 0 {
+		if rapid.Bool().Draw(t, "headTimeL") {
+			h.FI.LSec, h.FI.LZone = rapid.Int64Range(1, 4_000_000_000).Draw(t, "hlsec"), rapid.SampledFrom([]int{0, 0, 60, -330}).Draw(t, "hlzone")
+		}
+		if rapid.Bool().Draw(t, "headTimeR") {
+			h.FI.RSec, h.FI.RMicro = rapid.Int64Range(1, 4_000_000_000).Draw(t, "hrsec"), rapid.SampledFrom([]int{0, 0, 120000, 999999}).Draw(t, "hrus")
+		}
+		h.FI.TFmt = genTFmt.Draw(t, "headTFmt")
+	}
+	return h
 })
 
 func genFmtCase(t *rapid.T) FmtCase {
@@ -102,6 +151,18 @@ func TestC14Git(t *testing.T) {
 		}
 		g.Names = rapid.SliceOfN(rapid.StringMatching(`[a-z0-9_./-]{1,10}`), 1, 4).Draw(t, "names")
 		g.Poison = genPoison(t)
+		if rapid.IntRange(0, 2).Draw(t, "heads?") != 0 {
+			g.Heads = rapid.SliceOfN(genGitHead, 1, n).Draw(t, "heads")
+			for i := range g.Files {
+				// a created (deleted) file has no lines on the /dev/null side
+				h := g.Heads[i%len(g.Heads)]
+				if h.FI.Left == "/dev/null" && len(g.Files[i].R) > 0 && rapid.Bool().Draw(t, "created") {
+					g.Files[i].L = nil
+				} else if h.FI.Right == "/dev/null" && len(g.Files[i].L) > 0 && rapid.Bool().Draw(t, "deleted") {
+					g.Files[i].R = nil
+				}
+			}
+		}
 		return g
 	}, runGit)
 }
@@ -123,6 +184,16 @@ func TestC14Exhaustive(t *testing.T) {
 	}
 	fi := &FI{Left: "old name", Right: "new", LSec: 1234567890, LMicro: 120000, LZone: -330, RSec: -1}
 	fiQ := &FI{Left: "\"old name\"", Right: "`new`", LSec: 1234567890, LMicro: 120000, LZone: -330, RSec: -1}
+	// the caller's own time layouts (every 8th pair, the layouts in turn)
+	fiT := make([]*FI, len(timeLayouts))
+	for i, tf := range timeLayouts {
+		fiT[i] = &FI{Left: "old name", Right: "new", LSec: 1234567890, LMicro: 120000, LZone: -330, RSec: 1709287200 + int64(i), TFmt: tf}
+		if i%3 == 1 {
+			fiT[i].LSec = -1
+		} else if i%3 == 2 {
+			fiT[i].RSec = -1
+		}
+	}
 	vk.Parallel(h, n*n, func(w, idx int) {
 		l, r := all[idx/n], all[idx%n]
 		for ci, cn := range []int{-1, 0, 1, 2, 3} {
@@ -131,6 +202,8 @@ func TestC14Exhaustive(t *testing.T) {
 				c.FI = fi
 			} else if idx%4 == 3 {
 				c.FI = fiQ
+			} else if idx%8 == 2 {
+				c.FI = fiT[(idx/8+ci)%len(fiT)]
 			}
 			if (idx+ci)%3 == 0 {
 				c.Poison = 1 + (idx/3+ci*11)%(poisonKinds*len(strays))
